@@ -1401,8 +1401,10 @@ def c04_groups(seed, tier):
         groups += F.groups_from_trees([t], gi0=len(groups) + 1)
     # state blocks that only occur under a predicate (directly, or in a helper rule that is only used under one): the state
     # runtime is still needed by the emitted blocks, whatever the flags
+    predstate = []
     for k_ in range(6):
         g = Gram(len(groups) + 1)
+        predstate.append(g)
         st_ = lambda: g.seq([g.state("set", "x", 1), g.lit([F.A])])
         if k_ < 3:
             g.rules = [g.action(g.seq([g.un(["and", "not", "and"][k_], st_() if k_ < 2 else g.seq([g.un("not", st_()), g.any()])), g.un("star", g.any())]))]
@@ -1440,6 +1442,7 @@ def c04_groups(seed, tier):
     g.rules = [g.choice([g.ref(i + 2) for i in range(len(roots))])] + roots
     add(g)
     nostate.append(g)
+    c04_groups.predstate = predstate          # a pack of its own: no state block outside a predicate in the whole grammar
     return groups, nostate, len(ucl)
 
 
@@ -1479,6 +1482,8 @@ def check_C04(tier, seed, replay=None):
     for ci, fl in enumerate(combos):
         jobs.append(("main", groups, fl))
         jobs.append(("nostate", nostate, fl))
+        jobs.append(("predstate", c04_groups.predstate[:3], fl))       # the state blocks sit under the predicates themselves
+        jobs.append(("predstate1", c04_groups.predstate[3:], fl))       # ... in helper rules used under predicates only
         if "-support-left-recursion" in fl:
             jobs.append(("lr", lrg, fl))
     for gi, fid in wit.items():
